@@ -43,6 +43,22 @@ func genMatchCase(r *Rng) *matchCase {
 	for i := 0; i < n; i++ {
 		mc.Sigs = append(mc.Sigs, genSig(r, t, fmt.Sprintf("S%d", i)))
 	}
+	if r.Chance(35) {
+		// two signatures under the probe's own topology hash, the later one (by ID) with EMPTY optional
+		// fields where the earlier one is rich: whatever decodes them must not let the first shine through
+		rich := detection.IndexFunction(t, "N_rich", "d", "HIGH", "malware")
+		rich.ID = "S90"
+		rich.EntropyTolerance = 2
+		rich.IdentifyingFeatures.StringPatterns = append(rich.IdentifyingFeatures.StringPatterns, "bin")
+		bare := detection.IndexFunction(t, "", "", "", "")
+		bare.ID = "S91"
+		bare.EntropyTolerance = 0
+		bare.EntropyScore = t.EntropyScore + pick(r, []float64{0, 0.25, 0.4})
+		bare.IdentifyingFeatures.StringPatterns = nil
+		bare.IdentifyingFeatures.RequiredCalls = nil
+		bare.IdentifyingFeatures.OptionalCalls = nil
+		mc.Sigs = append(mc.Sigs, rich, bare)
+	}
 	mc.Thr = pick(r, thrPool)
 	mc.Thr2 = pick(r, thrPool)
 	mc.DefTol = pick(r, []float64{0, 0.125, 0.5, 0.5, 2})
